@@ -18,7 +18,7 @@ import omega.games.gr1 as gr1
 
 from ovc import spec, fixghost, explicit
 from contracts.fixpoint import (
-    set_mode, snapshot, independent_of, cpre_of, step_stub,
+    set_mode, snapshot, independent_of, cpre_of, step_stub, primed_lists_ok,
     _state_pred_maker, _optional, _syntactic, is_state_pred_syntactic)
 
 
@@ -53,6 +53,8 @@ def trap_stub(ctx, tE, tS, log, after=None):
     def stub(env_action, sys_action, safe, aut, unless=None):
         w.oblige('call trap: requires safe is a state predicate',
                  z3.BoolVal(is_state_pred_syntactic(w, safe)), kind='pre')
+        w.oblige('call trap: requires primed variable lists consistent with env / sys lists',
+                 z3.BoolVal(primed_lists_ok(aut)), kind='pre')
         w.oblige('call trap: actions are the automaton\'s',
                  z3.BoolVal(env_action is aut.action['env']
                             and sys_action is aut.action['sys']), kind='pre')
@@ -198,6 +200,8 @@ def aua_stub(ctx, tE, tS, th, log, after=None):
     def stub(goal, aut):
         w.oblige('call _attractor_under_assumptions: requires goal is a state predicate',
                  z3.BoolVal(is_state_pred_syntactic(w, goal)), kind='pre')
+        w.oblige('call _attractor_under_assumptions: requires primed variable lists consistent with env / sys lists',
+                 z3.BoolVal(primed_lists_ok(aut)), kind='pre')
         cnt[0] += 1
         y = w.pred(f'aua!{cnt[0]}', w.STATE)
         lf = fixghost.LfpSet(w, cpre, tE, tS, th, goal.t, y.t, log,
